@@ -9,5 +9,7 @@ def BlockCost : Int := 15
 def RMatchCost : Int := 4
 def fpAlignRecursion : String := "d76e96b076003751"
 def fpAlignTraps : String := "12866ecdea35edb5"
+def fpTraceForward : String := "3242f214c997c8ca"
+def fpTraceReverse : String := "28298aacb4d36e37"
 
 end Biogo.Generated.Pals
